@@ -818,6 +818,26 @@ func witnesses() []witness {
 			{User: "user:a", Type: "doc", Rel: "owner", Chunk: 100, Procs: 3, Buf: 128, Fault: true},
 			{User: "user:a", Type: "doc", Rel: "allowed", Chunk: 2, Procs: 1, Buf: 1, Fault: true}}})
 	}
+	// one userset (team#member, itself assigned through group#member) reached from doc#viewer along two
+	// different paths of equal depth, a different document on each
+	out = append(out, witness{&scen.Scenario{Shape: "fixed-equal-depth-paths", Types: []scen.TypeDef{user,
+		{Name: "group", Rels: []scen.RelDef{{Name: "member", RW: scen.This(), Restr: []scen.Restr{scen.RObj("user")}}}},
+		{Name: "team", Rels: []scen.RelDef{{Name: "member", RW: scen.This(), Restr: []scen.Restr{scen.RSet("group", "member")}}}},
+		{Name: "doc", Rels: []scen.RelDef{
+			{Name: "parent", RW: scen.This(), Restr: []scen.Restr{scen.RObj("team")}},
+			{Name: "owner", RW: scen.This(), Restr: []scen.Restr{scen.RObj("team")}},
+			{Name: "editor", RW: scen.This(), Restr: []scen.Restr{scen.RSet("team", "member")}},
+			{Name: "viewer", RW: scen.Union(scen.This(), scen.TTU("parent", "member")), Restr: []scen.Restr{scen.RSet("team", "member")}},
+			{Name: "allowed", RW: scen.Union(scen.TTU("parent", "member"), scen.TTU("owner", "member"))},
+			{Name: "blocked", RW: scen.Union(scen.Comp("editor"), scen.Comp("viewer"))},
+		}}}, Tuples: []scen.Tuple{
+		{Obj: "group:1", Rel: "member", User: "user:a"},
+		{Obj: "team:1", Rel: "member", User: "group:1#member"},
+		{Obj: "doc:1", Rel: "viewer", User: "team:1#member"},
+		{Obj: "doc:2", Rel: "parent", User: "team:1"},
+		{Obj: "doc:3", Rel: "owner", User: "team:1"},
+		{Obj: "doc:4", Rel: "editor", User: "team:1#member"},
+	}}, []Req{dflt("user:a", "doc", "viewer"), dflt("user:a", "doc", "allowed"), dflt("user:a", "doc", "blocked")}})
 	// parent types whose names are prefixes of one another, with different conditions on the
 	// tupleset restrictions (the pipeline pushes the restriction's condition list to the datastore)
 	out = append(out, witness{&scen.Scenario{Shape: "fixed-prefix-types", Conds: []string{"c1"}, ReqCtx: map[string]any{"x": 1},
